@@ -136,6 +136,16 @@ theorem C17_counterexample_wasm_dispatch :
 theorem fact_C17_decorator_looks_through_exec :
     guardOfFacts Generated.commissionDecoratorCases = .throughExec := by decide
 
+/-- every exit from the scan of a message list is an error return: a cap violation, an unpacking error, or an error found in the
+    messages of a MsgExec; nothing else ends the loop early (`guardCommissionAll` scans to the end of the list) -/
+theorem fact_C17_scan_ends_early_only_with_an_error : Generated.commissionDecoratorReturns =
+    ["range msgs / case *stakingtypes.MsgCreateValidator / if rate.GT(MAX_COMMISSION()) / return NewErrMaxValidatorCommission(rate)",
+     "range msgs / case *stakingtypes.MsgEditValidator / if rate != nil && msg.CommissionRate.GT(MAX_COMMISSION()) / return NewErrMaxValidatorCommission(*rate)",
+     "range msgs / case *authz.MsgExec / if err != nil / return err",
+     "range msgs / case *authz.MsgExec / if err != nil / return err",
+     "range msgs / default / continue",
+     "return nil"] := by rfl
+
 theorem fact_C17_decorator_in_chain : Generated.anteChainNonEVM.count "ante.AnteDecoratorStakingCommission" = 1 := by decide
 
 end Nibiru.MsgTree
